@@ -39,6 +39,7 @@ REWRITES = {
     'R1b': '`unreachable!(\"..\", args)` / `panic!(\"..\", args)` lose their message and become `unreachable!()` (the arm stays an obligation: it must be proved unreachable)',
     'R23': 'a field of type RwLock<T> is given the type T and `self.F.write().unwrap()` / `self.F.read().unwrap()` become `&mut self.F` / `&self.F` (receiver &self -> &mut self, R7): the lock guard held to the end of the block is the exclusive / shared borrow of the protected value; single-task semantics only, no claim about interleavings or lock poisoning',
     'R24': 'a provided (default-bodied) trait method is lifted out of its trait into a free generic function (`fn f(&mut self, ..)` of `trait T` -> `fn f<A: T>(vx_self: &mut A, ..)`, `Self` -> `A`, `self` -> `vx_self`) so that its contract can use spec functions that are generic over the trait (Verus rejects those inside the trait: cyclic definition); in the extracted trait declaration the method loses its body and is a required method; a verification of THE method as long as no implementor overrides it',
+    'R27': '`M.iter().any(F)` on a HashMap becomes `vx_map_any(&M, F)`, a declared function with the ASSUMED std contract: true iff F answers true for some entry (each entry handed to F as a pair of references); a closure that takes the pair as a tuple pattern gets a named parameter and `let PATTERN = parameter;` first in its body',
     'R26': '`E.iter_mut().for_each(F)` becomes `vx_for_each_mut(&mut E, F)`, a declared function with the ASSUMED std contract: F runs once on every element, in place, the length is kept',
     'R25': '`while let PAT = EXPR { BODY }` becomes `loop { match EXPR { PAT => { BODY } _ => { break; } } }` (definitional desugaring; Verus has no while-let)',
     'R22': 'by-value receiver `mut self` becomes `self` with `let mut vx_self = self;` first in the body and every `self` of the body renamed (Verus does not support `mut self`; the binding mode of a by-value parameter is not part of the interface)',
@@ -515,7 +516,7 @@ pub assume_specification [<{q} as PartialEq>::eq] (a: &{q}, b: &{q}) -> (r: bool
     # ---------- functions ----------
     def fn(self, path, impl, fn, requires=(), ensures=(), loops=None, ghost=(), subst=(), trait=None,
            erase_async=False, mut_self=False, ret_name='r', decreases=None, keep_macros=(), external_body=False,
-           let_chains=True, fmt=True, hash_loops=(), vis='pub', recommends=(), trait_full=None, keep_arms=None, as_inherent=False, copied_loops=(), eta=(), closures=None, continue_guards=(), deref_loops=(), attrs=(), clone_loops=(), into_values_loops=(), unlock=(), lift_default=None, for_each_mut=False):
+           let_chains=True, fmt=True, hash_loops=(), vis='pub', recommends=(), trait_full=None, keep_arms=None, as_inherent=False, copied_loops=(), eta=(), closures=None, continue_guards=(), deref_loops=(), attrs=(), clone_loops=(), into_values_loops=(), unlock=(), lift_default=None, for_each_mut=False, map_any=None):
         """Extract one fn verbatim and splice its contract.  Returns a list of Seg (to be put in an impl block).
         requires/ensures: list of (name, text).  loops: {ordinal: dict(invariant=[(name,text)], decreases=text, iter='vx_it')}
         ghost: list of (anchor, text) with anchor in ('body_start',), ('body_end',), ('loop_start',k), ('loop_end',k),
@@ -980,6 +981,27 @@ pub assume_specification [<{q} as PartialEq>::eq] (a: &{q}, b: &{q}) -> (r: bool
                     hit = [i for i, C0 in enumerate(e['closures']) if C0['span'][0] == e26]
                     if len(hit) == 1:
                         closures[hit[0]] = dict(for_each_mut[place], id='_' + re.sub(r'\W+', '_', place))
+        # R27: `M.iter().any(F)` -> `vx_map_any(&M, F)`; map_any maps a place (`self.children`) to the contract of the closure handed to any()
+        if map_any:
+            closures = dict(closures or {})
+            whole0 = src[a:b].decode()
+            for m27 in re.finditer(r'\b([A-Za-z_][A-Za-z0-9_]*(?:\s*\.\s*[A-Za-z_0-9]+)*)\s*\.\s*iter\(\)\s*\.\s*any\(\s*', whole0):
+                place = ''.join(m27.group(1).split())
+                if place not in map_any:
+                    continue
+                s27 = len(whole0[:m27.start()].encode()) + a
+                e27 = len(whole0[:m27.end()].encode()) + a
+                edits.append((s27, e27, [Seg(f'vx_map_any(&{place}, ')]))
+                self._rw('R27')
+                hit = [i for i, C0 in enumerate(e['closures']) if C0['span'][0] == e27]
+                if len(hit) == 1:
+                    C0 = e['closures'][hit[0]]
+                    pat = src[C0['span'][0]:C0['body'][0]].decode().strip()
+                    mp = re.fullmatch(r'\|\s*(\(.*\))\s*\|', pat, re.S)
+                    spec27 = dict(map_any[place], id='_' + re.sub(r'\W+', '_', place) + '_any')
+                    if mp:
+                        spec27['prologue'] = f'let {mp.group(1)} = vx_p; '
+                    closures[hit[0]] = spec27
         # closure contracts: the k-th closure gets typed parameters, a named result and an ensures clause (annotation only;
         # the closure body is untouched)
         for k, spec in (closures or {}).items():
@@ -1012,7 +1034,12 @@ pub assume_specification [<{q} as PartialEq>::eq] (a: &{q}, b: &{q}) -> (r: bool
                 cs, ct = C['span']
                 cbs, cbt = C['body']
                 is_block = src[cbs:cbs + 1] == b'{'
-                edits.append((cs, cbs, [Seg(spec['header'] + ' ensures '), Seg(spec['ensures'], clause=cid, fn=fid), Seg(' ' if is_block else ' { ')]))
+                pro = spec.get('prologue', '') if isinstance(spec, dict) else ''
+                if pro and is_block:
+                    # the closure body is a block: the prologue goes right after its opening brace
+                    edits.append((cs, cbs + 1, [Seg(spec['header'] + ' ensures '), Seg(spec['ensures'], clause=cid, fn=fid), Seg(' { ' + pro)]))
+                else:
+                    edits.append((cs, cbs, [Seg(spec['header'] + ' ensures '), Seg(spec['ensures'], clause=cid, fn=fid), Seg(' ' if is_block else ' { ' + pro)]))
                 if not is_block:
                     edits.append((cbt, cbt, [Seg(' }')]))
         # R13: constructor used as a function value -> eta-expanded closure (every occurrence)
